@@ -263,6 +263,12 @@ pub fn parent_main(check: &dyn TCheck, args: &Args) -> ! {
         args.seed.to_string(),
     ];
     wargs.extend(args.rest.iter().cloned());
+    if std::env::var("VERIF_WORKER_DEADLINE_S").is_err() {
+        std::env::set_var(
+            "VERIF_WORKER_DEADLINE_S",
+            if args.tier == Tier::Quick { "1800" } else { "21600" },
+        );
+    }
     let outs = proc::fan_out(n, &wargs);
     let mut works: BTreeMap<u64, Value> = BTreeMap::new();
     let mut runs: Vec<Value> = vec![];
@@ -284,7 +290,9 @@ pub fn parent_main(check: &dyn TCheck, args: &Args) -> ! {
             match last_begin {
                 // the worker process itself died while running jubako code in an execution:
                 // a memory error (or abort) is an observation, not a harness failure
-                Some(b) if o.status.contains("signal") => deaths.push((o.status.clone(), b)),
+                Some(b) if o.status.contains("signal") && !o.status.contains("signal: 9") => {
+                    deaths.push((o.status.clone(), b))
+                }
                 _ => simcore::harness_error(&format!("worker {} failed: {}", o.index, o.status)),
             }
         }
